@@ -68,6 +68,8 @@ def key_uri(k, with_directives=True):
     if k.get("pp"):
         d.append("postprocess=pp")
     if d:
+        if k.get("rev"):
+            d.reverse()  # the order of directives is free: "postprocess=pp;validate=v:..." is the same request
         return ";".join(d) + ":" + base
     return base
 
